@@ -6,6 +6,8 @@ import JominiModel.Proofs.BinTapeFaithful
 import JominiModel.Proofs.BinTapeTotal
 import JominiModel.Proofs.BinTapeNested
 import JominiModel.Proofs.BinTapeCut
+import JominiModel.Proofs.BinTapeMirror
+import JominiModel.Proofs.BinTapeReuse
 /-
 C03 — the binary tape mirrors the token stream; the fast paths are unobservable.
 Only property theorems live here; helper lemmas are in `Proofs/BinTape*.lean`.
@@ -133,6 +135,45 @@ theorem C03_total (opt : Bool) (data : Bytes) :
 
 example : parse true [0x04, 0x00] = .error .syntax ∧ parse true [0x82] = .ok [] ∧
     parse true [0x82, 0x2d] = .error .eof := ⟨rfl, rfl, rfl⟩
+
+/-- **The tape mirrors the lexeme stream — for EVERY accepted byte string**, well-formed or a tolerated
+malformation (`=` inside arrays, a key without a value before `}`, bare values at the root, stray
+trailing byte, …), no document type involved.  `Lexes data L`: `L` is the lexeme list of the input
+(`{`, `}`, `=`, scalars and ids with their decoded payloads, read one after the other).  `flat T`:
+the tape with end pointers and `MixedContainer` markers dropped, container starts as `{`, `End` as `}`,
+an `Rgb` token expanded to its block.  Then `flat T` is a sublist of `L`: every token of the tape is a
+lexeme of the input, each input lexeme is used at most once, order and payloads are preserved.
+What the tape leaves out is the `=` after a key, ghost `{}` objects in key position, and what the
+only_empties rewrite discards (tape.rs:600-616: the empty containers, and — the pinned quirk — one odd
+token); that nothing else is left out on well-formed streams is `C03_faithful`.  The end pointers are
+`C03_delimited_links`. -/
+theorem C03_tape_mirrors_lexemes (opt : Bool) (data : Bytes) (T : Tape) (h : parse opt data = .ok T)
+    (L : List Lx) (hL : Lexes data L) : (flat T).Sublist L :=
+  parse_mirror opt data T h L hL
+
+/-- hypotheses satisfiable, on a tolerated malformation: `id = { I32 5 I32 6 = I32 7 }` (`=` inside an
+array): the tape, its flattening, and the lexeme list of the input (here only the `=` after the key is
+left out) -/
+example :
+    let data : Bytes := [0x82, 0x2d, 1, 0, 3, 0, 0x0c, 0, 5, 0, 0, 0, 0x0c, 0, 6, 0, 0, 0, 1, 0, 0x0c, 0, 7, 0, 0, 0, 4, 0]
+    parse true data = .ok [.token 0x2d82, .array 7, .i32 5, .mixed, .i32 6, .equal, .i32 7, .end_ 1] ∧
+    flat [.token 0x2d82, .array 7, .i32 5, .mixed, .i32 6, .equal, .i32 7, .end_ 1]
+      = [.tok (.token 0x2d82), .open_, .tok (.i32 5), .tok (.i32 6), .equal, .tok (.i32 7), .close] ∧
+    Lexes data [.tok (.token 0x2d82), .equal, .open_, .tok (.i32 5), .tok (.i32 6), .equal, .tok (.i32 7), .close] :=
+  ⟨rfl, rfl, .cons rfl (.cons rfl (.cons rfl (.cons rfl (.cons rfl (.cons rfl (.cons rfl (.cons rfl (.done rfl))))))))⟩
+
+/-- **Fresh or previously used tape.**  `parseInto opt prev data` models
+`parse_slice_into_tape(data, &mut tape)` on a vector `prev` that was used before (`VecS`: the
+allocation with its stale contents, and the length).  The result is the one of a fresh tape, whatever
+`prev` holds; and no run reads the vector outside its length (`ub` never occurs), so the stale
+contents are never observed.  (`Proofs/BinTapeReuse.lean`: every vector primitive of the parser acts
+on the view like the list operation of the model, independently of the capacity contents.) -/
+theorem C03_reuse (opt : Bool) (prev : VecS) (data : Bytes) :
+    parseInto opt prev data = parse opt data ∧ parse opt data ≠ .error .ub :=
+  ⟨parseInto_eq opt prev data, (C05_bintape_no_ub_panic opt data).1⟩
+
+example : parseInto true ⟨[.token 1, .array 3, .end_ 1, .token 9], 3⟩ [0x82, 0x2d, 1, 0, 0x0c, 0, 5, 0, 0, 0]
+    = .ok [.token 0x2d82, .i32 5] := rfl
 
 /-- Payloads (shared with C06): on every accepted tape each key / value token is the decoding of a
 lexeme of the input — strings are slices of the input, numbers its little-endian bytes. -/
